@@ -140,7 +140,7 @@ def move_staticmethod_static_scope(source: str, preserve: Collection[str]) -> st
             continue
 
         for funcdef in parsing.iter_funcdefs(classdef):
-            if funcdef.name in attributes_to_preserve:
+            if funcdef.name in attributes_to_preserve or funcdef.name in preserve:
                 continue
             if f"{classdef.name}.{funcdef.name}" in preserve:
                 continue
